@@ -74,6 +74,43 @@ def _kani_scalar(root):
         shutil.rmtree(work, ignore_errors=True)
 
 
+def _py_patch_filter(b):
+    """the statement's filter, third independent implementation (python)"""
+    if not b:
+        return b
+    lines = b.split(b"\n")
+    if lines[-1] == b"":
+        lines.pop()            # the input ended with a newline: no further (empty) line
+    return b"".join(l + b"\n" for l in lines if b"$NetBSD" not in l)
+
+
+def _hashlib_cross_check(exe, seed):
+    """bounded validation of the uninterpreted std_digest / stream_of assumptions against python hashlib"""
+    import hashlib
+    names = {"BLAKE2s": "blake2s", "MD5": "md5", "RMD160": "ripemd160", "SHA1": "sha1", "SHA256": "sha256", "SHA512": "sha512"}
+    t = time.time()
+    p = subprocess.run([exe, "digests", str(seed), "900"], stdout=subprocess.PIPE, stderr=subprocess.PIPE, universal_newlines=True, timeout=1200)
+    n = 0
+    bad = []
+    for ln in p.stdout.split("\n"):
+        f = ln.split(" ")
+        if len(f) != 5 or f[0] != "DIGEST":
+            continue
+        algo, kind, hx, got = f[1], f[2], f[3], f[4]
+        data = bytes.fromhex(hx)
+        if kind == "patch":
+            data = _py_patch_filter(data)
+        try:
+            want = hashlib.new(names[algo], data).hexdigest()
+        except ValueError:
+            continue
+        n += 1
+        if want != got:
+            bad.append({"algo": algo, "entry": kind, "hexdata": hx, "expected": want, "actual": got})
+    return {"label": "bounded cross-check against python hashlib (independent implementation), random read schedules with Interrupted reads",
+            "compared": n, "mismatches": bad[:3], "wall_s": round(time.time() - t, 1)}
+
+
 def run(pid, cfg, repo, seed, root):
     cov = {}
     lines = []
@@ -132,6 +169,19 @@ def run(pid, cfg, repo, seed, root):
                     lines.append("VIOLATION property=%s replay=%s obligation=%s::(all-discharged;assumption-check)" % (pid, path, cfg["units"][0]))
                     code = 1
                     break
+            if pid == "C13" and code == 0:
+                dif["hashlib_cross_check"] = _hashlib_cross_check(exe, seed)
+                if dif["hashlib_cross_check"].get("mismatches"):
+                    m = dif["hashlib_cross_check"]["mismatches"][0]
+                    d = os.path.join(os.environ.get("VERIF_EVID", os.path.join(root, "evidence")), "replay")
+                    os.makedirs(d, exist_ok=True)
+                    path = os.path.join(d, "C13-hashlib.json")
+                    w = {"found": True, "kind": "digest", "entry": m["entry"], "algo": m["algo"], "hexdata": m["hexdata"], "sched": "64", "expected": m["expected"]}
+                    json.dump({"property": pid, "failure": {"obligation": "digest::(assumed;std_digest==hashlib)", "verus_output":
+                               "the digest computed by the real crate differs from python hashlib (OpenSSL) on this input: the assumed contract of the external core does not hold"},
+                               "witness": w}, open(path, "w"), indent=1)
+                    lines.append("VIOLATION property=C13 replay=%s obligation=digest::(assumed;std_digest==hashlib)" % path)
+                    code = 1
             if pid == "C04" and code == 0:
                 n = os.environ.get("VERIF_C04_MAXLEN", "8")
                 t = time.time()
